@@ -129,18 +129,26 @@ def h_from(vf, node, fn, args):
      'std::result::Result::expect', 'std::option::Option::unwrap_unchecked', 'std::result::Result::unwrap_unchecked')
 def h_unwrap(vf, node, fn, args):
     v = args[0]
-    if isinstance(v, T.Tm) and T.is_app(v, 'opt_get'):
-        v = index_term(v[2][0], v[2][1])          # v.get(i).unwrap() == v[i] (panics out of range, as indexing does)
+    if isinstance(v, T.Tm) and T.is_app(v, 'opt'):
+        v = v[2][1]          # Some-payload of a modelled option: v.get(i).unwrap() == v[i], a.checked_sub(b).unwrap() == a - b
     vf.discipline.append(('unwrap', tt(vf, v) if not isinstance(v, Ref) else tt(vf, v), node.get('sp'), vf.owner()))
     return v
 
 
 @reg('OPTION', 'core::slice::get', 'std::vec::Vec::get', 'std::slice::get')
 def h_slice_get(vf, node, fn, args):
-    """v.get(i): Some(&v[i]) iff i < len(v).  Kept as opt_get(v, i); `is:Some` / `is:None` tests and Some-payload bindings on it
-    are resolved to the bounds test and to v[i] (vflow.variant_test / bind)."""
-    v = vf.deref(args[0])
-    return T.app('opt_get', tt(vf, v), tt(vf, args[1]))
+    """v.get(i): Some(&v[i]) iff i < len(v).  Modelled options are opt(cond, payload); `is:Some` / `is:None` tests and Some-payload
+    bindings on them are resolved to cond and payload (vflow.variant_test / bind)."""
+    v = tt(vf, vf.deref(args[0]))
+    i = tt(vf, args[1])
+    return T.app('opt', T.cmp('lt', i, T.app('len', v)), index_term(v, i))
+
+
+@reg('OPTION', 'core::num::checked_sub', 'std::primitive::usize::checked_sub', 'core::num::<impl usize>::checked_sub', 'usize::checked_sub')
+def h_checked_sub(vf, node, fn, args):
+    """a.checked_sub(b) on unsigned integers: Some(a - b) iff a >= b"""
+    a, b = tt(vf, vf.deref(args[0])), tt(vf, vf.deref(args[1]))
+    return T.app('opt', T.cmp('ge', a, b), T.sub(a, b))
 
 
 @reg('ALIAS', 'std::result::Result::map_err')
